@@ -30,6 +30,7 @@ pub fn run(args: &Args) -> Report {
     let mut runs = vec![];
     let (mut checked, mut ok, mut steps, mut graph_states, mut max_rounds) = (0u64, 0u64, 0u64, 0usize, 0u32);
     let (mut loops_run, mut loops_ok, mut loops_msgs, mut loops_max_rounds) = (0u64, 0u64, 0u64, 0u32);
+    let (mut chained_run, mut chained_ok) = (0u64, 0u64);
     for (k, (weights, faulty, name)) in pl.iter().enumerate() {
         let slice = total / pl.len() as u64;
         // a third of the slice for building the graph, the rest for good periods
@@ -127,6 +128,32 @@ pub fn run(args: &Args) -> Report {
                 });
             }
         }
+        // Part C: chained good periods on the real run loops from the initial state; between two periods
+        // every node prunes its store up to the common head (all nodes restored from a snapshot there):
+        // blocks below it can no longer be fetched from anybody, and progress must not depend on them
+        {
+            let mut nodes: Vec<(usize, Local)> = sys.correct.iter().map(|c| (*c, Local::initial())).collect();
+            let mut trace = vec![];
+            for period in 0..3 {
+                let common = nodes.iter().map(|(_, l)| l.blocks.len()).min().unwrap_or(0);
+                let ch = core::Chooser::new(vec![], None);
+                let (r, locals) = bftsim::run_loops_pruned(&ch, &sys.w, &nodes, 2 * bound, common);
+                chained_run += 1;
+                trace.push(format!("period {period}: stores pruned below block {common}, stored {:?} -> {:?}, views {:?}", r.stored_at_start, r.stored_at_end, r.views_at_end));
+                if !r.ok {
+                    if !rep.violations.iter().any(|v| v.key.starts_with("no_progress_after_pruning")) {
+                        rep.violations.push(Violation {
+                            key: format!("no_progress_after_pruning@{k}"),
+                            what: format!("[no_progress_after_pruning] real Config::run loops, good period #{period} after every node pruned its store up to the common head: {}\n  instance: K4 weights {weights:?}, {name}\n  {}", r.why, trace.join("\n  ")),
+                            replay: json!({"harness":"c06-chained","placement": k}),
+                        });
+                    }
+                    break;
+                }
+                chained_ok += 1;
+                nodes = sys.correct.iter().cloned().zip(locals).collect();
+            }
+        }
         runs.push(json!({"placement": name, "run_loop_good_periods": loops_here, "graph_states": res.states, "graph_depth": res.completed_depth, "distinct_starting_points": starts.len(), "good_periods_run": done_here}));
     }
     if checked == 0 || loops_run == 0 {
@@ -141,6 +168,7 @@ pub fn run(args: &Args) -> Report {
         "distinct_nontrivial": ok.max(2),
         "rule": "starting points = states of the C01 graph explored within a third of the time slice, deduplicated on the durable part; each runs a deterministic good period on the real handlers; progress = every correct replica stores a block with a higher number than at the start, within n_validators + 2 rounds of view timeouts",
         "good_periods_with_progress": ok,
+        "chained_good_periods_with_pruned_stores": chained_run, "chained_good_periods_with_progress": chained_ok,
         "run_loop_good_periods": loops_run, "run_loop_good_periods_with_progress": loops_ok, "run_loop_messages_routed": loops_msgs, "run_loop_max_timeout_rounds_needed": loops_max_rounds,
         "max_timeout_rounds_needed": max_rounds,
         "timeout_round_bound": 6,
